@@ -1471,10 +1471,12 @@ func (gs *GossipSubRouter) Join(topic string) {
 	if ok {
 		backoff := gs.backoff[topic]
 		// these peers have a score above the publish threshold, which may be negative
-		// so drop the ones with a negative score
+		// so drop the ones with a negative score; a fanout peer may also have been made
+		// a direct peer since it was selected, and direct peers are never in the mesh
 		for p := range gmap {
 			_, doBackOff := backoff[p]
-			if gs.score.Score(p) < 0 || doBackOff {
+			_, direct := gs.direct[p]
+			if gs.score.Score(p) < 0 || doBackOff || direct {
 				delete(gmap, p)
 			}
 		}
